@@ -174,6 +174,7 @@ type State struct {
 	mapOrderAll   bool
 	allocHook     func(ex *Exec, st *State, n *Term, elem types.Type, why string) bool
 	poolAdversarial bool
+	allocLimit      int
 	appendHook      func(ex *Exec, st *State, newCap int)
 }
 
